@@ -11,11 +11,13 @@ value of a reference).  `none` = the operation raises and nothing is changed.
 
 What is *not* in the model: values and the dependency graph (that is `Exec`), object-valued
 references and their relative rebinding (`Kernels/Relative`), parametrised spaces
-(`Kernels/ItemSpace`), the order of members inside a container, `rename_space`, `UserSpace.copy`,
+(`Kernels/ItemSpace`), the order of members inside a container, `UserSpace.copy`,
 `new_space(formula=...)`, `new_cells_from_module` / `reload`, documentation strings, and Python's own
 attribute protocol: a name that is an attribute of the interface class (`bases`, `cells`, `doc`, ...)
 never reaches `set_attr` / `del_attr` when it is assigned or deleted as an attribute; assigning to the
 name of a cells without parameters is a value assignment (`Exec`), not a reference edit.
+`rename_space` is not one of the twelve constructors of `Op` below: it is `St.renameSpace` in
+`Struct/MechRename.lean` (histories `OpR` / `St.runR`, invariant `Proofs/StructMechRenameSpace.lean`).
 
 The model describes the code with the candidate repairs `notes/STRUCTX-candidate_*.diff` applied where
 the unchanged code violates C11/C12 (known findings, each with a witness in `corpus/`): references
